@@ -107,6 +107,11 @@ func (ex *Exec) runGhostSetsRes(st *State, fr *Frame, sets []*GhostSet, sig *typ
 		if ex.curCallRecv != nil {
 			env.vars["recv"] = TV{ex.curCallRecv, nil}
 		}
+		// a hook written for a call inside a range loop also fires at calls of the same callee elsewhere:
+		// there is no loop index then, and rangeindex reads -1
+		if _, ok := env.vars["rangeindex"]; !ok {
+			env.vars["rangeindex"] = TV{Scalar{IntLit(-1)}, types.Typ[types.Int]}
+		}
 		var vals []TV
 		for _, e := range gs.Exprs {
 			vals = append(vals, env.eval(e))
